@@ -188,6 +188,12 @@ where
                                 &max_depth,
                             );
                             pending.append(&mut targetted_pending);
+                            if job_broker.is_shut_down() {
+                                // Timed out, or another worker stopped: observed once per
+                                // block even if this worker never shares or requests work.
+                                log::debug!("{}: Market shut down. Shutting down...", t);
+                                return;
+                            }
                             if discoveries.len() == property_count {
                                 log::debug!(
                                     "{}: Discovery complete. Shutting down... gen={}",
